@@ -474,7 +474,8 @@ impl Response {
     pub fn _parse_http_response_header_string(header_string: &str) -> Header {
         let header_parts: Vec<&str> = header_string.split(Header::NAME_VALUE_SEPARATOR).collect();
         let header_name = header_parts[0].to_string();
-        let raw_header_value = header_parts[1].to_string();
+        // a line without the separator has an empty value
+        let raw_header_value = header_parts.get(1).unwrap_or(&SYMBOL.empty_string).to_string();
         let header_value = StringExt::truncate_new_line_carriage_return(&raw_header_value);
 
 
@@ -498,7 +499,12 @@ impl Response {
         }
         let bytes_offset = boxed_read.unwrap();
         let mut buffer_as_u8_array: &[u8] = &buffer;
-        let string = String::from_utf8(Vec::from(buffer_as_u8_array)).unwrap();
+        let boxed_string = String::from_utf8(Vec::from(buffer_as_u8_array));
+        if boxed_string.is_err() {
+            eprintln!("unable to parse raw response via cursor {}", boxed_string.err().unwrap());
+            return;
+        }
+        let string = boxed_string.unwrap();
 
         let is_first_iteration = iteration_number == 0;
         let new_line_char_found = bytes_offset != 0;
@@ -520,7 +526,10 @@ impl Response {
         }
 
         if current_string_is_empty {
-            let content_type = response._get_header(Header::_CONTENT_TYPE.to_string()).unwrap();
+            // if response does not contain Content-Type, it will be defaulted to APPLICATION_OCTET_STREAM
+            let default_content_type = Header { name: Header::_CONTENT_TYPE.to_string(), value: MimeType::APPLICATION_OCTET_STREAM.to_string() };
+            let boxed_content_type = response._get_header(Header::_CONTENT_TYPE.to_string());
+            let content_type = boxed_content_type.unwrap_or(&default_content_type).clone();
             let is_multipart = Response::_is_multipart_byteranges_content_type(&content_type);
 
             if is_multipart {
